@@ -336,4 +336,165 @@ theorem keptPairs_pos (aff : Mat) (ps : List (Nat × Nat)) : ∀ p ∈ keptPairs
   simp [keptPairs, List.mem_filter] at hp
   exact hp.2
 
+/-! ### review additions: duality certificate, matrix-fill loop -/
+theorem sum_nonneg (l : List Rat) (h : ∀ x ∈ l, 0 ≤ x) : 0 ≤ l.sum := by
+  induction l with
+  | nil => simp
+  | cons x xs ih =>
+    have h1 := h x (by simp)
+    have h2 := ih (fun y hy => h y (List.mem_cons_of_mem _ hy))
+    simp only [List.sum_cons]; grind
+
+theorem sum_map_le_sumRange (f : Nat → Rat) (n : Nat) (l : List Nat) (hl : l.Nodup)
+    (hlt : ∀ a ∈ l, a < n) (hf : ∀ i, i < n → 0 ≤ f i) : (l.map f).sum ≤ sumRange n f := by
+  have hp := perm_append_filter_not_mem l (List.range n) hl List.nodup_range
+    (fun a ha => List.mem_range.2 (hlt a ha))
+  have hs := sum_perm (hp.map f)
+  simp only [List.map_append, List.sum_append] at hs
+  have hrest : 0 ≤ (((List.range n).filter (fun i => !l.contains i)).map f).sum := by
+    apply sum_nonneg
+    intro x hx
+    obtain ⟨i, hi, rfl⟩ := List.mem_map.1 hx
+    exact hf i (List.mem_range.1 (List.mem_filter.1 hi).1)
+  unfold sumRange; grind
+
+theorem value_le_potentials (aff : Mat) (u v : Nat → Rat) (M : List (Nat × Nat))
+    (h : ∀ p ∈ M, aff p.1 p.2 ≤ u p.1 + v p.2) :
+    value aff M ≤ ((M.map Prod.fst).map u).sum + ((M.map Prod.snd).map v).sum := by
+  induction M with
+  | nil => simp [value]; grind
+  | cons p ps ih =>
+    have h1 := h p (by simp)
+    have h2 := ih (fun q hq => h q (List.mem_cons_of_mem _ hq))
+    rw [value_cons]
+    simp only [List.map_cons, List.sum_cons]
+    grind
+
+theorem dualFeasible_iff (n m : Nat) (aff : Mat) (u v : Nat → Rat) :
+    dualFeasible n m aff u v = true ↔
+      (∀ i, i < n → 0 ≤ u i) ∧ (∀ j, j < m → 0 ≤ v j) ∧ (∀ i j, i < n → j < m → aff i j ≤ u i + v j) := by
+  simp only [dualFeasible, Bool.and_eq_true, List.all_eq_true, List.mem_range, decide_eq_true_eq]
+  constructor
+  · rintro ⟨⟨h1, h2⟩, h3⟩; exact ⟨h1, h2, fun i j hi hj => h3 i hi j hj⟩
+  · rintro ⟨h1, h2, h3⟩; exact ⟨⟨h1, h2⟩, fun i hi j hj => h3 i j hi hj⟩
+
+/-- weak duality: feasible non-negative potentials bound every one-to-one pairing -/
+theorem weak_duality (n m : Nat) (aff : Mat) (u v : Nat → Rat) (M : List (Nat × Nat))
+    (hf : dualFeasible n m aff u v = true) (hM : PartialInjection n m M) :
+    value aff M ≤ dualBound n m u v := by
+  obtain ⟨hu, hv, huv⟩ := (dualFeasible_iff n m aff u v).1 hf
+  have h1 := value_le_potentials aff u v M (fun p hp => huv p.1 p.2 (hM.rows_lt p hp) (hM.cols_lt p hp))
+  have h2 := sum_map_le_sumRange u n (M.map Prod.fst) hM.rows_nodup
+    (fun a ha => by obtain ⟨p, hp, rfl⟩ := List.mem_map.1 ha; exact hM.rows_lt p hp) hu
+  have h3 := sum_map_le_sumRange v m (M.map Prod.snd) hM.cols_nodup
+    (fun a ha => by obtain ⟨p, hp, rfl⟩ := List.mem_map.1 ha; exact hM.cols_lt p hp) hv
+  unfold dualBound; grind
+
+
+
+/-! ### the matrix-fill loop -/
+
+structure Shape (n m : Nat) (g : Grid) : Prop where
+  rows : g.length = n
+  cols : ∀ r ∈ g, r.length = m
+
+theorem shape_zeros (n m : Nat) : Shape n m (zeros n m) := by
+  constructor
+  · simp [zeros]
+  · intro r hr; simp [zeros] at hr; rw [hr.2]; simp
+
+theorem shape_setCell {n m g} (h : Shape n m g) (i j : Nat) (x : Rat) : Shape n m (setCell g i j x) := by
+  constructor
+  · simp [setCell, h.rows]
+  · intro r hr
+    obtain ⟨k, hk, rfl⟩ := List.getElem_of_mem hr
+    have hk' : k < g.length := by simpa [setCell] using hk
+    have := List.getElem?_modify (fun r => r.set j x) i g k
+    have hg : (setCell g i j x)[k]? = some ((setCell g i j x)[k]) := List.getElem?_eq_getElem hk
+    simp only [setCell] at hg ⊢
+    rw [this, List.getElem?_eq_getElem hk'] at hg
+    simp only [Option.map_eq_map, Option.map_some, Option.some.injEq] at hg
+    rw [← hg]
+    split <;> simp [h.cols _ (List.getElem_mem hk')]
+
+theorem read_setCell (g : Grid) (i j i' j' : Nat) (x : Rat) :
+    matOfRows (setCell g i j x) i' j' =
+      if i = i' ∧ j = j' ∧ i < g.length ∧ j < (g.getD i []).length then x else matOfRows g i' j' := by
+  simp only [matOfRows, setCell, List.getD_eq_getElem?_getD, List.getElem?_modify]
+  by_cases hi : i = i'
+  · subst hi
+    by_cases hlt : i < g.length
+    · simp only [List.getElem?_eq_getElem hlt, Option.map_eq_map, Option.map_some, if_true,
+        Option.getD_some, List.getElem?_set]
+      by_cases hj : j = j'
+      · subst hj; by_cases hjl : j < g[i].length <;> simp [hlt, hjl]
+      · simp [hj]
+    · have : g[i]? = none := List.getElem?_eq_none (by omega)
+      simp [hlt]
+  · have : (fun a : List Rat => if i = i' then a.set j x else a) = id := by funext a; simp [hi]
+    simp [hi]
+
+theorem fold_read_untouched (cells : List (Nat × Nat × Rat)) (g : Grid) (i j : Nat)
+    (h : ∀ c ∈ cells, ¬ (c.1 = i ∧ c.2.1 = j)) :
+    matOfRows (cells.foldl (fun g c => setCell g c.1 c.2.1 c.2.2) g) i j = matOfRows g i j := by
+  induction cells generalizing g with
+  | nil => rfl
+  | cons c cs ih =>
+    simp only [List.foldl_cons]
+    rw [ih _ (fun d hd => h d (List.mem_cons_of_mem _ hd)), read_setCell]
+    have := h c (by simp)
+    simp only [ite_eq_right_iff]
+    intro hh; exact absurd ⟨hh.1, hh.2.1⟩ this
+
+theorem fold_read_written (n m : Nat) (cells : List (Nat × Nat × Rat)) (g : Grid) (i j : Nat) (x : Rat)
+    (hg : Shape n m g) (hi : i < n) (hj : j < m)
+    (hmem : ∃ c ∈ cells, c.1 = i ∧ c.2.1 = j)
+    (huniq : ∀ c ∈ cells, c.1 = i → c.2.1 = j → c.2.2 = x) :
+    matOfRows (cells.foldl (fun g c => setCell g c.1 c.2.1 c.2.2) g) i j = x := by
+  induction cells generalizing g with
+  | nil => obtain ⟨c, hc, _⟩ := hmem; cases hc
+  | cons c cs ih =>
+    simp only [List.foldl_cons]
+    by_cases hrest : ∃ d ∈ cs, d.1 = i ∧ d.2.1 = j
+    · exact ih _ (shape_setCell hg _ _ _) hrest (fun d hd => huniq d (List.mem_cons_of_mem _ hd))
+    · have hc : c.1 = i ∧ c.2.1 = j := by
+        obtain ⟨d, hd, hd'⟩ := hmem
+        rcases List.mem_cons.1 hd with rfl | hd
+        · exact hd'
+        · exact absurd ⟨d, hd, hd'⟩ hrest
+      rw [fold_read_untouched cs _ i j (fun d hd hh => hrest ⟨d, hd, hh⟩), read_setCell]
+      have hx := huniq c (by simp) hc.1 hc.2
+      have hlen : i < g.length := by rw [hg.rows]; exact hi
+      have hrow : (g.getD i []).length = m := by
+        rw [List.getD_eq_getElem?_getD, List.getElem?_eq_getElem hlen]
+        exact hg.cols _ (List.getElem_mem hlen)
+      rw [if_pos]
+      · exact hx
+      · exact ⟨hc.1, hc.2, by rw [hc.1]; exact hlen, by rw [hc.1, hc.2, hrow]; exact hj⟩
+
+theorem mem_fillCells {G : Type} (affinity : G → G → Rat) (src tgt : List G) (c : Nat × Nat × Rat) :
+    c ∈ fillCells affinity src tgt ↔
+      ∃ a b, src[c.1]? = some a ∧ tgt[c.2.1]? = some b ∧ c.2.2 = affinity a b := by
+  simp only [fillCells, List.mem_flatMap, List.mem_map, List.mem_zipIdx_iff_getElem?, Prod.exists]
+  constructor
+  · rintro ⟨a, i, ha, b, j, hb, rfl⟩; exact ⟨a, b, ha, hb, rfl⟩
+  · rintro ⟨a, b, ha, hb, hc⟩
+    exact ⟨a, c.1, ha, b, c.2.1, hb, by rw [← hc]⟩
+
+/-- the filled matrix is the table of affinities -/
+theorem fillMatrix_read {G : Type} (affinity : G → G → Rat) (src tgt : List G) (i j : Nat)
+    (hi : i < src.length) (hj : j < tgt.length) :
+    matOfRows (fillMatrix affinity src tgt) i j = affinity src[i] tgt[j] := by
+  unfold fillMatrix
+  apply fold_read_written src.length tgt.length _ _ i j _ (shape_zeros _ _) hi hj
+  · refine ⟨(i, j, affinity src[i] tgt[j]), ?_, rfl, rfl⟩
+    rw [mem_fillCells]
+    exact ⟨src[i], tgt[j], List.getElem?_eq_getElem hi, List.getElem?_eq_getElem hj, rfl⟩
+  · intro c hc h1 h2
+    rw [mem_fillCells] at hc
+    obtain ⟨a, b, ha, hb, hv⟩ := hc
+    rw [h1, List.getElem?_eq_getElem hi] at ha
+    rw [h2, List.getElem?_eq_getElem hj] at hb
+    cases ha; cases hb; exact hv
+
 end SE.Matching
